@@ -106,6 +106,10 @@ def gen_cases(rng, tier):
                 t = c.mk([[u, rng.choice([1, 1, 2, -1])]])
                 cases.append({'k': 't', 't': c.case(['hasheq', t, ['norm', t]])})
                 cases.append({'k': 't', 't': c.case(['hasheq', ['norm', t], t])})
+    # C07's directed hash queries (operators applied to normal forms: seeded C07-d)
+    for case in T07._directed(rng):
+        if case['query'][0] == 'hasheq':
+            cases.append({'k': 't', 't': case})
     curs = ['EUR', 'USD', 'JPY', 'HKD']
     for _ in range(80 if tier == 'quick' else 800):                 # exchange rates
         u, t = rng.sample(curs, 2)
